@@ -32,7 +32,7 @@ func TestMain(m *testing.M) {
 		panic(err)
 	}
 	tmpDir = d
-	defer os.RemoveAll(d)
+	h.AtExit(func() { os.RemoveAll(d) })
 	h.Main(m, "C11", replay)
 }
 
